@@ -5,6 +5,7 @@ package rt
 import (
 	"bufio"
 	"bytes"
+	"context"
 	"crypto/sha256"
 	"encoding/hex"
 	"encoding/json"
@@ -17,6 +18,7 @@ import (
 	"strconv"
 	"strings"
 	"sync"
+	"syscall"
 	"time"
 )
 
@@ -232,12 +234,16 @@ type SpawnOpt struct {
 
 // JobOutcome is the result of one worker process.
 type JobOutcome struct {
-	Job     Job
-	Res     *WorkerResult
-	Err     string // non-empty: the worker died without a result
-	Stderr  string
-	RaceLog string
+	TimedOut bool
+	Job      Job
+	Res      *WorkerResult
+	Err      string // non-empty: the worker died without a result
+	Stderr   string
+	RaceLog  string
 }
+
+// workerGrace is how long after the run's deadline a worker is given to wind down on its own.
+const workerGrace = 90 * time.Second
 
 // RunJobs runs each job in its own worker process (this binary or the -race twin), at most Procs at a time.
 func RunJobs(ctx *Ctx, jobs []Job, opt SpawnOpt) []JobOutcome {
@@ -269,7 +275,11 @@ func RunJobs(ctx *Ctx, jobs []Job, opt SpawnOpt) []JobOutcome {
 			j.Scratch = ctx.TempDir("w")
 			j.Deadline = ctx.Deadline.Unix()
 			jb, _ := json.Marshal(j)
-			cmd := exec.Command(bin, "worker", string(jb))
+			// a worker never outlives its parent, and is killed if it overruns the run's deadline by far
+			kctx, cancel := context.WithDeadline(context.Background(), ctx.Deadline.Add(workerGrace))
+			defer cancel()
+			cmd := exec.CommandContext(kctx, bin, "worker", string(jb))
+			cmd.SysProcAttr = &syscall.SysProcAttr{Pdeathsig: syscall.SIGKILL}
 			cmd.Env = append(os.Environ(), opt.Env...)
 			raceLog := ""
 			if opt.Race {
@@ -293,6 +303,9 @@ func RunJobs(ctx *Ctx, jobs []Job, opt SpawnOpt) []JobOutcome {
 			var wr WorkerResult
 			if len(lines) > 0 && json.Unmarshal([]byte(lines[len(lines)-1]), &wr) == nil && wr.Cov != nil {
 				o.Res = &wr
+			} else if kctx.Err() != nil {
+				o.TimedOut = true
+				o.Err = fmt.Sprintf("worker %s/%d was stopped %v after the deadline without a result", j.Name, j.Shard, workerGrace)
 			} else {
 				o.Err = fmt.Sprintf("worker %s/%d died without result: %v", j.Name, j.Shard, err)
 			}
@@ -316,6 +329,10 @@ func tail(s string, n int) string {
 func Collect(ctx *Ctx, outs []JobOutcome, onDeath func(o JobOutcome) *Violation) []*Violation {
 	var vs []*Violation
 	for _, o := range outs {
+		if o.Res == nil && o.TimedOut {
+			ctx.Cov.Cap(o.Err)
+			continue
+		}
 		if o.Res == nil {
 			if onDeath != nil {
 				if v := onDeath(o); v != nil {
